@@ -146,6 +146,29 @@ def table_cases(name, tier):
                 continue
             yield {"a": ["and", P(nx), P(p)], "b": ["and", P(x), P(q)]}
             yield {"a": ["or", P(nx), P(p)], "b": ["or", P(x), P(q)]}
+    elif name == "shared-child-unions":
+        # two disjunctions that share a child (S) and are otherwise complex enough for union() to prefer the raw,
+        # un-normalised candidate MarkerUnion(*operands) over its cnf/dnf
+        W = _WIDE_ATOMS
+        n = len(W)
+        conj = [(i, j) for i, j in itertools.combinations(range(n), 2)]
+        step = 5 if tier == "quick" else 1
+        k = 0
+        for s_ in range(n):
+            for (i, j), (p, q) in itertools.product(conj, repeat=2):
+                if s_ in (i, j, p, q) or (i, j) == (p, q):
+                    continue
+                k += 1
+                if k % step:
+                    continue
+                yield {"a": ["or", ["and", P(W[i]), P(W[j])], P(W[s_])], "b": ["or", ["and", P(W[p]), P(W[q])], P(W[s_])]}
+        # (x1 or x2 or x3) and e, produced by an earlier |, united with a disjunction sharing the child S
+        for s_, e in itertools.permutations(range(n), 2):
+            rest = [x for x in range(n) if x not in (s_, e)]
+            for trio in list(itertools.combinations(rest, 3))[:: 4 if tier == "quick" else 1]:
+                f = next(x for x in rest if x not in trio)
+                grp = ["or", ["or", P(W[trio[0]]), P(W[trio[1]])], P(W[trio[2]])]
+                yield {"a": ["or", ["and", grp, P(W[e])], P(W[s_])], "b": ["or", P(W[s_]), P(W[f])]}
     elif name == "mixed-py-triples":
         # x or (x and y) or x  shapes and merged operands meeting a third atom
         A = [a for a in py_atoms("quick") if not a["rev"]][:: 4 if tier == "quick" else 2]
@@ -198,7 +221,7 @@ def tasks(tier, seed):
     shards = 48 if tier == "quick" else 192
     # slow, straggler-prone shards first
     t = [(MOD, "hyp", (n // shards, seed * 1_000_003 + i, tier)) for i in range(shards)]
-    for name, nsh in (("py-pairs", 32 if tier == "quick" else 64), ("rel-pairs", 4), ("str-triples", 32), ("extra-triples", 16), ("mixed-py-triples", 16), ("wide-with-neutral", 16), ("str-group-pairs", 8), ("consensus-py", 16)):
+    for name, nsh in (("py-pairs", 32 if tier == "quick" else 64), ("rel-pairs", 4), ("str-triples", 32), ("extra-triples", 16), ("mixed-py-triples", 16), ("wide-with-neutral", 16), ("str-group-pairs", 8), ("consensus-py", 16), ("shared-child-unions", 16)):
         for sh in range(nsh):
             t.append((MOD, "tables", (name, tier, sh, nsh)))
     return t
